@@ -35,7 +35,8 @@ def build_factory(cfg):
 
 
 def ctx_of(cfg):
-    return f"{cfg['kind']}{'+spec' if cfg.get('speculative') else ''}/W{cfg['W']}/{'del' if cfg['delete'] else 'keep'}"
+    return (f"{cfg['kind']}{'+spec' if cfg.get('speculative') else ''}/W{cfg['W']}/{'del' if cfg['delete'] else 'keep'}"
+            + ("" if cfg.get("mra", True) else "/nomra"))
 
 
 def label(cfg):
@@ -72,6 +73,7 @@ def configs(tier, seed):
                     if tier == "quick" and not delete and pi % 4 != (seed % 4):
                         continue
                     cfg = dict(kind=base, speculative=spec, W=W, R=4, mode="min" if (pi + W) % 2 else "max", seed=seed, profile=prof,
+                               mra=(base == "pbt") or ((pi + ki) % 2 == 0),   # without max_resource_attr jobs run on past their milestone
                                delete=delete, k=1 if tier == "quick" else 2, stop={"max_num_trials_started": 5 if base != "pbt" else 6},
                                wait=(pi % 2 == 0), pop=2 if W == 2 else 3, max_exec=250 if tier == "quick" else 5000)
                     out.append(cfg)
